@@ -178,6 +178,9 @@ def run(ctx):
     excm = ctx.excm(['playback.tape_cassette'])
     c10.category_exactness_loops(ctx, res, cx, 'C19', 'C19.e', c10.ListingPolicy(repo, excm), excm,
                                  (repo.cls('InMemoryTapeCassette'), repo.cls('FileBasedTapeCassette')))
+    cy = res.clause('C19.f', 'R-ABSINT', 'the equalizer hands each recording to a worker at most once (shared with C13.e)', floor=1)
+    from . import c13
+    c13.dispatch_once_clause(ctx, res, cy, 'C19', 'C19.f')
     return res
 
 
